@@ -45,6 +45,55 @@ def blocks(text):
     return res
 
 
+def programs(text):
+    """-> list of (arch_line, mw or None, [source lines], PR line)"""
+    res, arch, mw, cur = [], "", None, None
+    for l in text.splitlines():
+        if l.startswith("A "):
+            arch, mw = l, None
+        elif l.startswith("MW "):
+            mw = int(l.split()[1])
+        elif l.startswith("PG"):
+            cur = []
+        elif (l == "PL" or l.startswith("PL ")) and cur is not None:
+            cur.append(l[3:])
+        elif l.startswith("PR") and cur is not None:
+            res.append((arch, mw, cur, l))
+            cur = None
+    return res
+
+
+def compare_programs(impl, model, st, fails):
+    """Arch.Assembler on whole source texts: one word of Max_word bits per instruction line, in order"""
+    pi, pm = programs(impl), programs(model)
+    if len(pi) != len(pm):
+        fails.append({"kind": "oracle-desync", "arch": "", "line": "programs", "impl": str(len(pi)), "model": str(len(pm))})
+        return
+    for (a, mw, src, ri), (_, _, _, rm) in zip(pi, pm):
+        st["programs"] = st.get("programs", 0) + 1
+        instr = [l for l in src if l.split() and not l.split()[0].startswith("#")]
+        st["program_comment_lines"] = st.get("program_comment_lines", 0) + (len(src) - len(instr))
+        if ri.startswith("PR ok"):
+            ws = ri.split()[2:]
+            st["programs_ok"] = st.get("programs_ok", 0) + 1
+            why = None
+            if len(ws) != len(instr):
+                why = "%d instruction lines gave %d words" % (len(instr), len(ws))
+            elif mw is not None and any(len(w) != mw for w in ws):
+                why = "a word of the program is not Max_word=%d bits wide: %s" % (mw, [len(w) for w in ws])
+            if why:
+                fails.append({"kind": "property-fails-on-impl", "arch": a, "line": "PROGRAM", "program": src, "impl": [ri], "model": [rm], "why": why})
+                continue
+        elif ri == "PR panic":
+            fails.append({"kind": "property-fails-on-impl", "arch": a, "line": "PROGRAM", "program": src, "impl": [ri], "model": [rm],
+                          "why": "Arch.Assembler panicked on a source text"})
+            continue
+        if rm == "PR unmodelled":
+            continue
+        if ri != rm:
+            fails.append({"kind": "correspondence", "arch": a, "line": "PROGRAM", "program": src, "impl": [ri], "model": [rm]})
+
+
 def norm_tokens(iline):
     toks = iline.lower().split()[1:]
     if not toks:
@@ -120,6 +169,7 @@ def compare(impl, model):
                 continue
             if bI != bM:
                 fails.append({"kind": "correspondence", "arch": a, "line": I, "impl": list(bI), "model": list(bM)})
+    compare_programs(impl, model, st, fails)
     return st, fails
 
 
@@ -133,9 +183,11 @@ def run_pair(hbin, args, timeout=1800):
     return impl, model
 
 
-def replay_case(hbin, arch, line):
+def replay_case(hbin, arch, line, program=None):
     d = vlib.scratch_dir("c03")
     f = os.path.join(d, "replay.txt")
+    if program is not None:
+        line = "PG %d\n%s\nPR" % (len(program), "\n".join(("PL " + l) if l else "PL" for l in program))
     open(f, "w").write(arch + "\n" + line + "\n")
     impl, model = run_pair(hbin, ["replay", f])
     return compare(impl, model)
@@ -191,7 +243,8 @@ def run(rep):
         "opcodes with shared-object operands and the dynamic families are outside the layout table: the fixed-width / round-trip "
         "properties are still evaluated for them on the Go side, but no theorem covers them (listed under unmodelled_ops)",
     ]
-    tot = {"archs": 0, "lines": 0, "ok": 0, "err": 0, "unmodelled_lines": 0, "len_compared": 0}
+    tot = {"archs": 0, "lines": 0, "ok": 0, "err": 0, "unmodelled_lines": 0, "len_compared": 0, "programs": 0, "programs_ok": 0,
+           "program_comment_lines": 0}
     by_op = {}
     distinct = set()
     unmod = set()
@@ -200,7 +253,7 @@ def run(rep):
 
     def absorb(st):
         for k in tot:
-            tot[k] += st[k]
+            tot[k] += st.get(k, 0)
         for k, v in st["by_op_ok"].items():
             by_op[k] = by_op.get(k, 0) + v
         distinct.update(st["distinct"])
@@ -243,14 +296,14 @@ def run(rep):
             real = [f for f in real if f not in hit]
     if real:
         f = shrink(hbin, real[0])
-        rep.violation({"property": PROP, "kind": f["kind"], "arch": f["arch"], "line": f["line"], "why": f.get("why"),
+        rep.violation({"property": PROP, "kind": f["kind"], "arch": f["arch"], "line": f["line"], "program": f.get("program"), "why": f.get("why"),
                        "impl": f["impl"], "model": f["model"], "other_failing_lines": len(real) - 1})
     elif other or not pr["ok"]:
         broken = list(pr["broken"])
         detail = None
         if other:
             f = shrink(hbin, other[0])
-            detail = {"arch": f["arch"], "line": f["line"], "impl": f["impl"], "model": f["model"]}
+            detail = {"arch": f["arch"], "line": f["line"], "program": f.get("program"), "impl": f["impl"], "model": f["model"]}
             broken.append("correspondence BMV.Encode vs procbuilder assembler/disassembler (%s)" % f["kind"])
         rep.violation({"property": PROP, "kind": "proof-or-correspondence-broken", "broken": broken,
                        "first_disagreement": detail,
@@ -263,7 +316,7 @@ def replay(rep, path):
     vlib.lake_build([EXE])
     obj = json.load(open(path))
     d = obj if obj.get("arch") else (obj.get("first_disagreement") or {})
-    st, fs = replay_case(hbin, d.get("arch", ""), d.get("line", ""))
+    st, fs = replay_case(hbin, d.get("arch", ""), d.get("line", ""), d.get("program"))
     rep.coverage.update({"evaluations": max(1, st["lines"]), "distinct_nontrivial": 2, "rule": "replay of " + path,
                          "samples": [[d.get("arch"), d.get("line")]]})
     for f in fs:
